@@ -146,7 +146,13 @@ def correspondence(rep, rng, tier):
         from .C09 import find_base
         good = find_base(n, base['lookups'], base['end'])       # START words this host decodes (a valid family, kind, signal …)
         if good is not None:
-            base = dict(base, start=list(good))
+            # … and on which the two hosts AGREE (so that a difference under a flag bit is not explained by the base)
+            cands = [list(good)] + [[a, b_] + list(good[2:]) for a in (2, 1, 3) for b_ in (1, 2, 3)] + \
+                    [[a] + list(good[1:]) for a in (1, 2, 3, 14, 15)]
+            cc = [dict(base, start=c_) for c_ in cands]
+            ha, da = host_texts(cc), darwin_texts(cc)
+            agree = [c_ for c_, x, y in zip(cands, ha, da) if x == y and not x.startswith('raise')]
+            base = dict(base, start=list(agree[0] if agree else good))
         for pos in range(4):
             for small in (1, 2, 3, 5):
                 for b in range(8, 32):
